@@ -349,6 +349,15 @@ def bulk_registry(section):
         small = [t for t in sets if len(t) <= 1]
         reg.append(('count_overlap', iv.count_overlap, [lambda a=a, b=b: (I(a), I(b)) for a in small if a for b in small if b]))
         reg.append(('intersect', iv.intersect, [lambda a=a, b=b: (I(a), I(b)) for a in small if a for b in small if b]))
+
+        def U(t):   # given order reversed (unsorted, nested sets start with the inner interval); () -> the empty table
+            t = sorted(t)[::-1]
+            return Interval(['c'] * len(t), [a for a, _ in t], [b for _, b in t]) if t else Interval.empty()
+        pairs = [(a, b) for a in sets for b in sets if len(a) + len(b) <= 3 and (not a or not b or len(a) + len(b) == 2)]
+        reg.append(('count_overlap (any operand, also empty / unsorted)', iv.count_overlap,
+                    [lambda a=a, b=b: (U(a), U(b)) for a, b in pairs]))
+        reg.append(('unique_intersect (any operand, also empty / unsorted)', iv.unique_intersect,
+                    [lambda a=a, b=b: (U(a), U(b), S) for a, b in pairs]))
     elif section == 'sequences':
         strings = [''.join(t) for n in range(0, 3) for t in itertools.product('ACGT', repeat=n)]
         rows = [(a,) for a in strings] + [(a, b) for a in strings[:9] for b in strings[:9]]
